@@ -155,75 +155,110 @@ func same(a, b *Term) bool { return a == b || a.String() == b.String() }
 
 // ---- arithmetic with light simplification ----
 
+// linear normal form: sum of coeff*atom + const, atoms ordered by first appearance.
+type linForm struct {
+	atoms []*Term
+	coef  map[string]*big.Int
+	c     *big.Int
+}
+
+func (l *linForm) add(t *Term, k *big.Int) {
+	switch {
+	case t.IsInt():
+		l.c.Add(l.c, new(big.Int).Mul(k, t.Val))
+	case t.Op == "+" && t.Sort == SInt:
+		for _, a := range t.Args {
+			l.add(a, k)
+		}
+	case t.Op == "-" && t.Sort == SInt && len(t.Args) == 1:
+		l.add(t.Args[0], new(big.Int).Neg(k))
+	case t.Op == "-" && t.Sort == SInt && len(t.Args) >= 2:
+		l.add(t.Args[0], k)
+		nk := new(big.Int).Neg(k)
+		for _, a := range t.Args[1:] {
+			l.add(a, nk)
+		}
+	case t.Op == "*" && len(t.Args) == 2 && t.Args[0].IsInt():
+		l.add(t.Args[1], new(big.Int).Mul(k, t.Args[0].Val))
+	case t.Op == "*" && len(t.Args) == 2 && t.Args[1].IsInt():
+		l.add(t.Args[0], new(big.Int).Mul(k, t.Args[1].Val))
+	default:
+		key := t.String()
+		if c, ok := l.coef[key]; ok {
+			c.Add(c, k)
+		} else {
+			l.coef[key] = new(big.Int).Set(k)
+			l.atoms = append(l.atoms, t)
+		}
+	}
+}
+
+func (l *linForm) build() *Term {
+	var res *Term
+	one := big.NewInt(1)
+	var negs []*Term
+	for _, a := range l.atoms {
+		k := l.coef[a.String()]
+		if k.Sign() == 0 {
+			continue
+		}
+		var t *Term
+		ak := new(big.Int).Abs(k)
+		if ak.Cmp(one) == 0 {
+			t = a
+		} else {
+			t = App("*", SInt, BigInt(ak), a)
+		}
+		if k.Sign() < 0 {
+			negs = append(negs, t)
+			continue
+		}
+		if res == nil {
+			res = t
+		} else {
+			res = App("+", SInt, res, t)
+		}
+	}
+	if res == nil {
+		if len(negs) == 0 {
+			return BigInt(l.c)
+		}
+		res = BigInt(l.c)
+		for _, n := range negs {
+			res = App("-", SInt, res, n)
+		}
+		return res
+	}
+	for _, n := range negs {
+		res = App("-", SInt, res, n)
+	}
+	if l.c.Sign() != 0 {
+		res = App("+", SInt, res, BigInt(l.c))
+	}
+	return res
+}
+
+func linNorm(parts []*Term, signs []int64) *Term {
+	l := &linForm{coef: map[string]*big.Int{}, c: big.NewInt(0)}
+	for i, p := range parts {
+		l.add(p, big.NewInt(signs[i]))
+	}
+	return l.build()
+}
+
 func Add(a, b *Term) *Term {
-	if a.IsInt() && b.IsInt() {
-		return BigInt(new(big.Int).Add(a.Val, b.Val))
+	if a.IsBV() || b.IsBV() {
+		return App("bvadd", a.Sort, a, b)
 	}
-	if a.IsInt() && a.Val.Sign() == 0 {
-		return b
-	}
-	if b.IsInt() && b.Val.Sign() == 0 {
-		return a
-	}
-	// (x + c1) + c2
-	if b.IsInt() && a.Op == "+" && len(a.Args) == 2 && a.Args[1].IsInt() {
-		return Add(a.Args[0], BigInt(new(big.Int).Add(a.Args[1].Val, b.Val)))
-	}
-	if a.IsInt() {
-		return Add(b, a)
-	}
-	// a + (p - a) = p ; (p - b) + b = p
-	if b.Op == "-" && len(b.Args) == 2 && same(b.Args[1], a) {
-		return b.Args[0]
-	}
-	if a.Op == "-" && len(a.Args) == 2 && same(a.Args[1], b) {
-		return a.Args[0]
-	}
-	// (x + y) + (p - x) -> y + p   (offset arithmetic under shifted quantifiers)
-	if b.Op == "-" && len(b.Args) == 2 && a.Op == "+" && len(a.Args) == 2 {
-		if same(a.Args[0], b.Args[1]) {
-			return Add(a.Args[1], b.Args[0])
-		}
-		if same(a.Args[1], b.Args[1]) {
-			return Add(a.Args[0], b.Args[0])
-		}
-	}
-	// (x + c1) + y -> (x + y) + c1
-	if a.Op == "+" && len(a.Args) == 2 && a.Args[1].IsInt() && !b.IsInt() {
-		return Add(Add(a.Args[0], b), a.Args[1])
-	}
-	if b.Op == "+" && len(b.Args) == 2 && b.Args[1].IsInt() {
-		return Add(Add(a, b.Args[0]), b.Args[1])
-	}
-	return App("+", SInt, a, b)
+	return linNorm([]*Term{a, b}, []int64{1, 1})
 }
 
 func Neg(a *Term) *Term {
-	if a.IsInt() {
-		return BigInt(new(big.Int).Neg(a.Val))
-	}
-	return App("-", SInt, a)
+	return linNorm([]*Term{a}, []int64{-1})
 }
 
 func Sub(a, b *Term) *Term {
-	if b.IsInt() {
-		return Add(a, BigInt(new(big.Int).Neg(b.Val)))
-	}
-	if same(a, b) {
-		return Int(0)
-	}
-	// (x + c) - x
-	if a.Op == "+" && len(a.Args) == 2 && a.Args[1].IsInt() && same(a.Args[0], b) {
-		return a.Args[1]
-	}
-	// (x + c1) - (y + c2)
-	if b.Op == "+" && len(b.Args) == 2 && b.Args[1].IsInt() {
-		return Add(Sub(a, b.Args[0]), BigInt(new(big.Int).Neg(b.Args[1].Val)))
-	}
-	if a.Op == "+" && len(a.Args) == 2 && a.Args[1].IsInt() {
-		return Add(Sub(a.Args[0], b), a.Args[1])
-	}
-	return App("-", SInt, a, b)
+	return linNorm([]*Term{a, b}, []int64{1, -1})
 }
 
 func Mul(a, b *Term) *Term {
@@ -868,7 +903,7 @@ func indexShift(t *Term, v string) *Term {
 			return
 		}
 		if t.Op == "select" && t.Args[1].Sort == SInt && containsSym(t.Args[1], v) {
-			terms, _ := summands(t.Args[1])
+			terms, cst := summands(t.Args[1])
 			var rest []*Term
 			n := 0
 			ok := true
@@ -881,9 +916,9 @@ func indexShift(t *Term, v string) *Term {
 					rest = append(rest, s)
 				}
 			}
-			if ok && n == 1 && len(rest) > 0 {
-				x := rest[0]
-				for _, r := range rest[1:] {
+			if ok && n == 1 && (len(rest) > 0 || cst.Sign() != 0) {
+				x := BigInt(cst)
+				for _, r := range rest {
 					x = Add(x, r)
 				}
 				res = x
